@@ -241,34 +241,34 @@ def _map_edit(run, own):
 
 def c06(run):
     own = lambda m: site_of(m).startswith(("map_roundtrip", "map_edits", "scenario")) and m["kind"] != "getter"
-    run.scen("MC_Map", {"Tier": '"%s"' % run.tier}, own=own)
+    run.scen("MC_Map", {"Tier": '"%s"' % run.tier, "Seed": vlib.SEED % 300, "NRand": 1500 if run.thorough else 250}, own=own)
     _map_edit(run, own)
 
 
 def c16(run):
     own = lambda m: site_of(m).startswith(("map_probe", "map_edits/cell", "map_edits/lava", "scenario"))
-    run.scen("MC_Map", {"Tier": '"%s"' % run.tier}, own=own)
+    run.scen("MC_Map", {"Tier": '"%s"' % run.tier, "Seed": 1, "NRand": 0}, own=own)
     _map_edit(run, own)
 
 
 def c07(run):
     run.scen("MC_MapFault", {}, small_heap=True, max_crashes=200)
     # a saved game yields the same fields as a map holding the same embedded portion (specification: MapFile!SavedGame)
-    run.scen("MC_Map", {"Tier": '"%s"' % run.tier}, own=by_prefix("save_equiv", "scenario"), name="MC_Map (saved game = map)")
+    run.scen("MC_Map", {"Tier": '"%s"' % run.tier, "Seed": 1, "NRand": 0}, own=by_prefix("save_equiv", "scenario"), name="MC_Map (saved game = map)")
 
 
 def c08(run):
-    run.scen("MC_Bmp", {"MaxWidth": 70 if run.thorough else 40}, own=by_prefix("bmp_", "scenario"))
+    run.scen("MC_Bmp", {"MaxWidth": 70 if run.thorough else 40, "Seed": vlib.SEED % 300, "NRand": 2000 if run.thorough else 300}, own=by_prefix("bmp_", "scenario"))
     # whatever the reader accepts among the faulted images of the C11 fault model must satisfy the post-conditions C08 states
     run.scen("MC_ImageFault", {}, small_heap=True, max_crashes=300, own=lambda m: "/postcondition" in m["site"], name="MC_ImageFault (post-conditions of accepted bitmaps)")
 
 
 def c09(run):
-    run.scen("MC_Bmp", {"MaxWidth": 40}, own=by_prefix("tileset", "ts_detect", "scenario"))
+    run.scen("MC_Bmp", {"MaxWidth": 40, "Seed": vlib.SEED % 300, "NRand": 1000 if run.thorough else 200}, own=by_prefix("tileset", "ts_detect", "scenario"))
 
 
 def c10(run):
-    run.scen("MC_Prt", {})
+    run.scen("MC_Prt", {"Seed": vlib.SEED % 300, "NRand": 600 if run.thorough else 120})
 
 
 def c11(run):
